@@ -2,7 +2,7 @@
 From Coq Require Import NArith ZArith List Uint63 Bool.
 From Coq.Strings Require Import Byte.
 From LOF Require Export Corr.Common.
-From LOF Require Import Base.Bytes Base.Res Model.Wire Model.Proto.
+From LOF Require Import Base.Bytes Base.Res Model.Wire Model.Proto Model.Proto2.
 Import ListNotations.
 Open Scope N_scope.
 
@@ -14,8 +14,23 @@ Fixpoint bytes_eqb (a b : list byte) : bool :=
   end.
 Definition n_of (i : int) : N := Z.to_N (Uint63.to_Z i).
 
+(* values of the record kinds of Model/Proto2.v as the harness writes them *)
+Inductive prec :=
+| PIgmp12 (ty mrt cs : int) (group : list int)
+| PIgmp3q (ty mrt cs : int) (group : list int) (s qrv qqic ns : int) (srcs : list (list int))
+| PGr (ty aux ns : int) (mcast : list int) (srcs : list (list int)) (auxd : list int)
+| PReport (ty cs ng : int) (recs : list prec)
+| PDhcp (nums : list int) (ci yi si gi ch sname file : list int) (opts : list (int * list int))
+| PTlv (ty len sub : int) (data : list int)
+| PTtl (ty len secs : int)
+| PLldp (ch pt tl : prec)
+| PVlan (tpid pcp dei vid : int)
+| PV6opt (ty len : int) (data : list int).
+
 Inductive caseP :=
 | Pk (dec : int) (input : list int) (outcome : int) (reenc : list int) (cmp : int)
+| Pk2 (dec : int) (input : list int) (outcome : int) (reenc : list int) (lenv : int) (cmp : int)
+| Rt (v : prec) (bytes : list int) (len0 : int) (outcome : int) (reenc : list int) (lenv same : int)
 | Frame (bytes : list int) (len outcome : int) (reenc : list int) (tag lenv tagged tci ethertype fields_equal : int)
 | Lane (code : int) (ws : list int).
 
@@ -29,6 +44,107 @@ Definition run_dec (code : N) (d : list byte) : option (res tree) :=
   | _ => None
   end.
 
+(* ---- the record kinds (codes 100..111): decode, then the re-encoding and reported size of
+   the decoded value *)
+Definition obs2 := (res (list byte) * N)%type.        (* re-encoding (Err: the encoder refuses), Len() *)
+Definition seen {A} (r : res A) (enc : A -> res (list byte)) (len : A -> N) : res obs2 :=
+  match r with Ok v => Ok (enc v, len v) | Err => Err | Panic => Panic | Fuel => Fuel end.
+Definition okb {A} (f : A -> list byte) (a : A) : res (list byte) := Ok (f a).
+Definition run_dec2 (code : N) (d : list byte) : option (res obs2) :=
+  match code with
+  | 100 => Some (seen (dec_vlan d) (okb enc_vlan) (fun _ => 4))
+  | 101 => Some (seen (dec_v6opt d) (okb enc_v6opt) len_v6opt)
+  | 102 => Some (seen (dec_igmp12 d) (okb enc_igmp12) len_igmp12)
+  | 103 => Some (seen (dec_igmp3q d) (okb enc_igmp3q) len_igmp3q)
+  | 104 => Some (seen (dec_gr d) (okb enc_gr) len_gr)
+  | 105 => Some (seen (dec_report d) (okb enc_report) len_report)
+  | 106 => Some (seen (dec_dhcp d) enc_dhcp len_dhcp)
+  | 107 => Some (seen (parse_opts (S (length d)) d) (fun _ => Ok []) (fun _ => 0))
+  | 108 => Some (seen (dec_lldp_r d) (okb enc_lldp) len_lldp)
+  | 109 | 110 => Some (seen (dec_tlv_r d) (okb enc_tlv) (fun _ => 0))
+  | 111 => Some (seen (dec_ttl_r d) (okb enc_ttl) (fun _ => 0))
+  | _ => None
+  end.
+
+Definition bs_of (l : list int) : list byte := unpack l.
+Definition conv_gr (p : prec) : igmp3gr :=
+  match p with
+  | PGr ty aux nsrc mc srcs auxd =>
+    {| r_type := n_of ty; r_aux := n_of aux; r_ns := n_of nsrc; r_mcast := bs_of mc; r_srcs := map bs_of srcs; r_auxd := ns auxd |}
+  | _ => {| r_type := 0; r_aux := 0; r_ns := 0; r_mcast := []; r_srcs := []; r_auxd := [] |}
+  end.
+Definition conv_tlv (p : prec) : tlv :=
+  match p with
+  | PTlv ty ln sub data => {| t_type := n_of ty; t_len := n_of ln; t_sub := n_of sub; t_data := bs_of data |}
+  | _ => nil_tlv
+  end.
+Definition conv_ttl (p : prec) : ttl :=
+  match p with
+  | PTtl ty ln secs => {| l_type := n_of ty; l_len := n_of ln; l_secs := n_of secs |}
+  | _ => nil_ttl
+  end.
+Definition nth_n (l : list int) (i : nat) : N := n_of (nth i l 0%uint63).
+
+Definition bs_eqb := bytes_eqb.
+Fixpoint bss_eqb (a b : list (list byte)) : bool :=
+  match a, b with [], [] => true | x :: a', y :: b' => bs_eqb x y && bss_eqb a' b' | _, _ => false end.
+Fixpoint ns_eqb (a b : list N) : bool :=
+  match a, b with [], [] => true | x :: a', y :: b' => N.eqb x y && ns_eqb a' b' | _, _ => false end.
+Definition gr_eqb (a b : igmp3gr) : bool :=
+  N.eqb (r_type a) (r_type b) && N.eqb (r_aux a) (r_aux b) && N.eqb (r_ns a) (r_ns b) && bs_eqb (r_mcast a) (r_mcast b)
+  && bss_eqb (r_srcs a) (r_srcs b) && ns_eqb (r_auxd a) (r_auxd b).
+Fixpoint grs_eqb (a b : list igmp3gr) : bool :=
+  match a, b with [], [] => true | x :: a', y :: b' => gr_eqb x y && grs_eqb a' b' | _, _ => false end.
+Fixpoint opts_eqb (a b : list dopt) : bool :=
+  match a, b with [], [] => true | x :: a', y :: b' => N.eqb (fst x) (fst y) && bs_eqb (snd x) (snd y) && opts_eqb a' b' | _, _ => false end.
+Definition tlv_eqb (a b : tlv) : bool :=
+  N.eqb (t_type a) (t_type b) && N.eqb (t_len a) (t_len b) && N.eqb (t_sub a) (t_sub b) && bs_eqb (t_data a) (t_data b).
+Definition ttl_eqb (a b : ttl) : bool := N.eqb (l_type a) (l_type b) && N.eqb (l_len a) (l_len b) && N.eqb (l_secs a) (l_secs b).
+
+(* a value case, as the model sees it: the encoding of the value, the size it reports, and
+   whether decoding that encoding gives the value back *)
+Definition rt_view {A} (v : A) (enc : A -> res (list byte)) (len : A -> N) (dec : list byte -> res A) (eqb : A -> A -> bool)
+  : res (list byte) * N * bool :=
+  (enc v, len v, match enc v with Ok b => match dec b with Ok v' => eqb v' v | _ => false end | _ => false end).
+Definition model_rt (p : prec) : res (list byte) * N * bool :=
+  match p with
+  | PIgmp12 ty mrt cs g =>
+    rt_view {| g_type := n_of ty; g_mrt := n_of mrt; g_csum := n_of cs; g_group := bs_of g |} (okb enc_igmp12) len_igmp12 dec_igmp12
+            (fun a b => N.eqb (g_type a) (g_type b) && N.eqb (g_mrt a) (g_mrt b) && N.eqb (g_csum a) (g_csum b) && bs_eqb (g_group a) (g_group b))
+  | PIgmp3q ty mrt cs g s qrv qqic nsrc srcs =>
+    rt_view {| q_type := n_of ty; q_mrt := n_of mrt; q_csum := n_of cs; q_group := bs_of g; q_s := N.eqb (n_of s) 1; q_qrv := n_of qrv;
+               q_qqic := n_of qqic; q_ns := n_of nsrc; q_srcs := map bs_of srcs |} (okb enc_igmp3q) len_igmp3q dec_igmp3q
+            (fun a b => N.eqb (q_type a) (q_type b) && N.eqb (q_mrt a) (q_mrt b) && N.eqb (q_csum a) (q_csum b) && bs_eqb (q_group a) (q_group b)
+                        && Bool.eqb (q_s a) (q_s b) && N.eqb (q_qrv a) (q_qrv b) && N.eqb (q_qqic a) (q_qqic b) && N.eqb (q_ns a) (q_ns b)
+                        && bss_eqb (q_srcs a) (q_srcs b))
+  | PGr _ _ _ _ _ _ => rt_view (conv_gr p) (okb enc_gr) len_gr dec_gr gr_eqb
+  | PReport ty cs ng recs =>
+    rt_view {| p_type := n_of ty; p_csum := n_of cs; p_ng := n_of ng; p_recs := map conv_gr recs |} (okb enc_report) len_report dec_report
+            (fun a b => N.eqb (p_type a) (p_type b) && N.eqb (p_csum a) (p_csum b) && N.eqb (p_ng a) (p_ng b) && grs_eqb (p_recs a) (p_recs b))
+  | PDhcp nums ci yi si gi ch sname file opts =>
+    rt_view {| d_op := nth_n nums 0; d_ht := nth_n nums 1; d_hl := nth_n nums 2; d_hops := nth_n nums 3; d_xid := nth_n nums 4;
+               d_secs := nth_n nums 5; d_flags := nth_n nums 6; d_ci := bs_of ci; d_yi := bs_of yi; d_si := bs_of si; d_gi := bs_of gi;
+               d_ch := bs_of ch; d_sname := bs_of sname; d_file := bs_of file; d_opts := map (fun o => (n_of (fst o), bs_of (snd o))) opts |}
+            enc_dhcp len_dhcp dec_dhcp
+            (fun a b => N.eqb (d_op a) (d_op b) && N.eqb (d_ht a) (d_ht b) && N.eqb (d_hl a) (d_hl b) && N.eqb (d_hops a) (d_hops b)
+                        && N.eqb (d_xid a) (d_xid b) && N.eqb (d_secs a) (d_secs b) && N.eqb (d_flags a) (d_flags b)
+                        && bs_eqb (d_ci a) (d_ci b) && bs_eqb (d_yi a) (d_yi b) && bs_eqb (d_si a) (d_si b) && bs_eqb (d_gi a) (d_gi b)
+                        && bs_eqb (d_ch a) (d_ch b) && bs_eqb (d_sname a) (d_sname b) && bs_eqb (d_file a) (d_file b) && opts_eqb (d_opts a) (d_opts b))
+  | PTlv _ _ _ _ => rt_view (conv_tlv p) (okb enc_tlv) (fun _ => 0) dec_tlv_r tlv_eqb
+  | PTtl _ _ _ => rt_view (conv_ttl p) (okb enc_ttl) (fun _ => 0) dec_ttl_r ttl_eqb
+  | PLldp ch pt tl =>
+    rt_view {| ll_ch := conv_tlv ch; ll_pt := conv_tlv pt; ll_ttl := conv_ttl tl |} (okb enc_lldp) len_lldp dec_lldp_r
+            (fun a b => tlv_eqb (ll_ch a) (ll_ch b) && tlv_eqb (ll_pt a) (ll_pt b) && ttl_eqb (ll_ttl a) (ll_ttl b))
+  | PVlan tp pcp dei vid =>
+    rt_view {| v_tpid := n_of tp; v_pcp := n_of pcp; v_dei := n_of dei; v_vid := n_of vid |} (okb enc_vlan) (fun _ => 4) dec_vlan
+            (fun a b => N.eqb (v_tpid a) (v_tpid b) && N.eqb (v_pcp a) (v_pcp b) && N.eqb (v_dei a) (v_dei b) && N.eqb (v_vid a) (v_vid b))
+  | PV6opt ty ln data =>
+    rt_view {| o_type := n_of ty; o_len := n_of ln; o_data := bs_of data |} (okb enc_v6opt) len_v6opt dec_v6opt
+            (fun a b => N.eqb (o_type a) (o_type b) && N.eqb (o_len a) (o_len b) && bs_eqb (o_data a) (o_data b))
+  end.
+(* kinds whose values report no size (the TLVs have no Len method) *)
+Definition has_len (p : prec) : bool := match p with PTlv _ _ _ _ | PTtl _ _ _ => false | _ => true end.
+
 (* C08: the property's oracle is "a value or an error" (0 / 1); panic 2, hang 3, memory 4 *)
 Definition check08 (c : caseP) : verdict :=
   match c with
@@ -40,6 +156,22 @@ Definition check08 (c : caseP) : verdict :=
     | Some r =>
       let agree := match r with
                    | Ok t => N.eqb oc 0 && (N.eqb (n_of cmp) 0 || bytes_eqb (wire t) (unpack reenc))
+                   | Err => N.eqb oc 1
+                   | Panic => N.eqb oc 2
+                   | Fuel => false
+                   end in
+      mkv agree accept
+    end
+  | Pk2 dec input outcome reenc lenv cmp =>
+    let oc := n_of outcome in
+    let accept := (oc <? 2) in
+    match run_dec2 (n_of dec) (unpack input) with
+    | None => VBad
+    | Some r =>
+      let agree := match r with
+                   | Ok (e, l) => N.eqb oc 0 && (N.eqb (n_of cmp) 0 ||
+                                   (match e with Ok b => bytes_eqb b (unpack reenc) | _ => bytes_eqb [] (unpack reenc) end
+                                    && (N.eqb (n_of cmp) 1 || N.eqb l (n_of lenv))))
                    | Err => N.eqb oc 1
                    | Panic => N.eqb oc 2
                    | Fuel => false
@@ -150,5 +282,13 @@ Definition check09 (c : caseP) : verdict :=
   | Lane code ws =>
     let '(a, c) := if N.eqb (n_of code) 5 then lanes_v6 (ns ws) true true else lanes (n_of code) (ns ws) true true in
     mkv a c
+  | Rt v b len0 oc re lenv same =>
+    let bytes := unpack b in let n := N.of_nat (length bytes) in
+    let '(e, l, back) := model_rt v in
+    let agree := match e with Ok mb => bytes_eqb mb bytes | _ => false end && back
+                 && (negb (has_len v) || N.eqb l (n_of len0)) in
+    let accept := N.eqb (n_of oc) 0 && bytes_eqb (unpack re) bytes && N.eqb (n_of same) 1
+                  && (negb (has_len v) || (N.eqb (n_of len0) n && N.eqb (n_of lenv) n)) in
+    mkv agree accept
   | _ => VBad
   end.
